@@ -215,3 +215,23 @@ def mult_case(rng):
     flat_beads = [n for n, f in beads for _ in range(f)] * m
     flat = '{' + ''.join('[#%s]' % n for n in flat_beads) + '}.' + frag_block
     return {'kind': 'hier', 's': s3, 'flat': flat, 'levels': 2, 'all_atom': True, 'mult_in_fragment': True}
+
+
+def digit_case(rng):
+    """two groups of a middle level joined by a single and a double coarse bond through the SAME plain '>' / '<' symbols:
+    only the order digit tells the two pairs apart, in whichever order the beads are written (bicyclo[2.2.0]hexane in four
+    pieces; atomistic or coarse last level, optionally one more level on top)"""
+    aa = rng.random() < 0.6
+    last = ('{#A=[$ab]C[$ac],#B=[$ab]C([$p])C[$q],#C=[$cd]C[$ac],#D=[$p]C([$cd])C[$q]}' if aa else
+            '{#A=[$ab][#a][$ac],#B=[$ab][#b1][$p][#b2][$q],#C=[$cd][#c][$ac],#D=[$p][#d1][$cd][#d2][$q]}')
+    x = rng.choice(['[#A][>][#B]=[>]', '[#B]=[>][#A][>]'])
+    y = rng.choice(['[#D]=[<][#C][<]', '[#C][<][#D]=[<]'])
+    mid = '{#X=%s,#Y=%s}' % (x, y) if rng.random() < 0.5 else '{#Y=%s,#X=%s}' % (y, x)
+    top = '{[#X]=[#Y]}' if rng.random() < 0.7 else '{[#Y]=[#X]}'
+    s = top + '.' + mid + '.' + last
+    levels = 2
+    if rng.random() < 0.3:
+        s = '{[#T]}.{#T=%s}.' % top[1:-1] + mid + '.' + last
+        levels = 3
+    return {'kind': 'hier', 's': s, 'flat': '{[#A]1[#B]=[#D][#C]1}.' + last, 'levels': levels, 'all_atom': aa,
+            'order_digit_family': True}
